@@ -95,6 +95,29 @@ func includeFiles(c *c11Case) map[string]string {
 			} else {
 				fmt.Fprintf(&b, "sub mod_%s {\n  set req.http.X-%s = \"1\";\n}\n", m, m)
 			}
+		} else if c.Place == "block" {
+			// every include statement nested in an if / else block, in vcl_recv and inside the modules
+			nested := func(indent string) {
+				if len(incs) == 0 {
+					return
+				}
+				fmt.Fprintf(&b, "%sif (req.http.C11-%s) {\n", indent, m)
+				for k, t := range incs {
+					if k == (len(incs)+1)/2 && k > 0 {
+						fmt.Fprintf(&b, "%s} else {\n", indent)
+					}
+					fmt.Fprintf(&b, "%s  include \"%s\";\n", indent, spell(c, m, t, k))
+				}
+				fmt.Fprintf(&b, "%s}\n", indent)
+			}
+			if m == "main" {
+				b.WriteString("backend example { .host = \"example.com\"; }\nsub vcl_recv {\n  #FASTLY RECV\n  set req.backend = example;\n")
+				nested("  ")
+				b.WriteString("  return (lookup);\n}\n")
+			} else {
+				nested("")
+				fmt.Fprintf(&b, "set req.http.X-%s = \"1\";\n", m)
+			}
 		} else {
 			if m == "main" {
 				b.WriteString("backend example { .host = \"example.com\"; }\nsub vcl_recv {\n  #FASTLY RECV\n  set req.backend = example;\n")
@@ -174,6 +197,105 @@ var probeNames = []string{
 var probePrelude = "ratecounter c11_prc {}\npenaltybox c11_ppb {}\ntable c11_ptable { \"a\": \"b\" }\nacl c11_pacl { \"192.0.2.0\"/24; }\n" +
 	"director c11_pdir random { { .backend = example; .weight = 1; } }\n"
 var probeForms = []string{"  set req.http.P = %s;\n", "  if (%s) {\n    set req.http.P = \"1\";\n  }\n", "  set req.http.P = \"a\" %s;\n", "  if (client.ip ~ %s) {\n  }\n", "  set var.c11_i = %s;\n"}
+// malformed and well-formed PCRE in regex literals: counting capture groups, compiling ... must terminate
+var regexProbes = []string{
+	"^/item/(?<id[0-9]+)", "(?<", "(?P<x", "(?'n", "(?#c", "(?:a", "[a", "a\\", "(?<>a)", "(", ")", "(?", "(?P", "(?P=", "(?P>",
+	"(?<n>a)(?<n>b)", "a{", "a{1,", "*", "+?", "(?i", "\\", "(?<id>[0-9]+)", "(a)(b)(c)", "((((a))))", "(?:a)(b)", "\\(a\\)", "[(]a", "[^]a]", "(?<=a)b",
+	"(?<!a)b", "(?=a", "(?!a", "(?|a", "(?>a", "(?R", "(?1", "(?-i", "(?x) a # c", "\\Q(\\E", "\\Q(", "(?<id>", "(?'id'", "(?P<id>", "", "%%28", "(a|", "|)", "(?<a>(?<b>",
+}
+var regexForms = []string{
+	"  if (req.url ~ \"%s\") {\n    set req.http.R = re.group.1;\n  }\n",
+	"  if (req.url !~ \"%s\") {\n    set req.http.R = \"1\";\n  }\n",
+	"  set req.http.R = regsub(req.url, \"%s\", \"x\");\n",
+	"  set req.http.R = regsuball(req.url, \"%s\", \"\\1\");\n",
+	"  if (req.url ~ {\"%s\"}) {\n    set req.http.R = re.group.0;\n  }\n",
+	"  if (req.http.A && (req.http.B ~ \"%s\" || req.url !~ \"%s\")) {\n  }\n",
+}
+
+func regexStmt(k int) string {
+	re := regexProbes[k%len(regexProbes)]
+	form := regexForms[(k/len(regexProbes))%len(regexForms)]
+	st := strings.ReplaceAll(form, "%s", re)
+	return parsesOr(st, "")
+}
+
+// parsesOr keeps a statement only if the parser accepts it inside a subroutine
+func parsesOr(st, alt string) string {
+	ok, seen := probeParses[st]
+	if !seen {
+		_, err := parser.New(lexer.NewFromString("sub c11_probe {\n" + st + "}\n")).ParseVCL()
+		ok = err == nil
+		probeParses[st] = ok
+	}
+	if ok {
+		return st
+	}
+	return alt
+}
+
+// blockParses keeps a declaration block only if the parser accepts it on its own
+func blockParses(b string) bool {
+	ok, seen := probeParses["B:"+b]
+	if !seen {
+		_, err := parser.New(lexer.NewFromString(b)).ParseVCL()
+		ok = err == nil
+		probeParses["B:"+b] = ok
+	}
+	return ok
+}
+
+// parameterised subroutines called with every number of arguments from none to one too many,
+// as call statements and - the functional one - inside expressions
+var paramTypes = []struct{ typ, arg string }{{"STRING", "\"a\""}, {"INTEGER", "1"}, {"BOOL", "true"}, {"FLOAT", "1.5"}, {"RTIME", "10s"}, {"IP", "\"192.0.2.1\""}}
+
+func paramBlocks(index int) []string {
+	n := index % 4 // number of parameters
+	var params, args []string
+	for k := 0; k < n; k++ {
+		t := paramTypes[(index/4+k)%len(paramTypes)]
+		params = append(params, fmt.Sprintf("%s var.p%d", t.typ, k))
+		args = append(args, t.arg)
+	}
+	args = append(args, "\"extra\"")
+	plain := fmt.Sprintf("sub c11_par(%s) {\n  set req.http.Par = \"1\";\n}\n", strings.Join(params, ", "))
+	fn := fmt.Sprintf("sub c11_fpar(%s) STRING {\n  return \"f\";\n}\n", strings.Join(params, ", "))
+	caller := "sub c11_caller {\n" + parsesOr("  call c11_par;\n", "")
+	for k := 0; k <= n+1; k++ {
+		caller += parsesOr(fmt.Sprintf("  call c11_par(%s);\n", strings.Join(args[:k], ", ")), "")
+		caller += parsesOr(fmt.Sprintf("  set req.http.Fp = c11_fpar(%s);\n", strings.Join(args[:k], ", ")), "")
+		caller += parsesOr(fmt.Sprintf("  if (c11_fpar(%s) == \"f\") {\n  }\n", strings.Join(args[:k], ", ")), "")
+	}
+	caller += "}\n"
+	var out []string
+	for _, b := range []string{plain, fn} {
+		if !blockParses(b) {
+			return nil
+		}
+		out = append(out, b)
+	}
+	return append(out, caller)
+}
+
+// declarations named like builtin functions / reserved words, with and without an ignore comment in front
+var builtinNamed = []string{
+	"sub regsub {\n  set req.http.Bn = \"1\";\n}\n",
+	"# falco-ignore-next-line\nsub regsuball {\n  set req.http.Bn = \"2\";\n}\n",
+	"// falco-ignore-next-line unused/declaration\nsub substr {\n  set req.http.Bn = \"3\";\n}\n",
+	"sub urlencode STRING {\n  return \"u\";\n}\n",
+	"# falco-ignore-next-line\nsub randombool BOOL {\n  return true;\n}\n",
+	"# falco-ignore-next-line\nsub std.tolower {\n  set req.http.Bn = \"4\";\n}\n",
+	"sub table.lookup {\n  set req.http.Bn = \"5\";\n}\n",
+	"# falco-ignore-next-line\nsub if {\n}\n",
+	"# falco-ignore-next-line\nacl regsub { \"192.0.2.0\"/24; }\n",
+	"# falco-ignore-next-line\ntable substr { \"a\": \"b\" }\n",
+	"# falco-ignore-next-line\nbackend urlencode { .host = \"b.example.com\"; }\n",
+	"# falco-ignore-next-line\ndirector randombool random { { .backend = example; .weight = 1; } }\n",
+	"# falco-ignore-next-line\npenaltybox regsub {}\n",
+	"# falco-ignore-next-line\nratecounter substr {}\n",
+	"# falco-ignore-next-line\nsub vcl_recv {\n  #FASTLY RECV\n}\n",
+	"# falco-ignore-next-line\nsub c11_probe {\n}\n",
+}
+
 var probeParses = map[string]bool{}
 
 // probeStmt renders the k-th probe and keeps it only if the parser accepts it (parser totality is another property)
@@ -298,7 +420,16 @@ func passesBlocks(c *c11Case, rng *rand.Rand) (string, []string) {
 	for k := 0; k < 3; k++ {
 		probe += probeStmt(c.Index*3 + k)
 	}
+	for k := 0; k < 2; k++ {
+		probe += regexStmt(c.Index*2 + k)
+	}
 	blocks = append(blocks, probe+"}\n")
+	blocks = append(blocks, paramBlocks(c.Index)...)
+	for k := 0; k < 2; k++ {
+		if b := builtinNamed[(c.Index*2+k)%len(builtinNamed)]; blockParses(b) {
+			blocks = append(blocks, b)
+		}
+	}
 	for _, u := range c.Users {
 		if u == dup {
 			blocks = append(blocks, sub(u, 1), sub(u, 2))
@@ -670,9 +801,10 @@ func c11Replay(args []string) int {
 					return err
 				}
 			}
-			budget := 60 * time.Second
+			// normal cases take milliseconds (tens of them when the machine is overloaded)
+			budget := 20 * time.Second
 			if attempt == 1 {
-				budget = 180 * time.Second
+				budget = 60 * time.Second
 			}
 			b, f, d := ch.ask(payload, budget)
 			failure, detail = f, d
@@ -704,6 +836,9 @@ func c11Replay(args []string) int {
 			// requirement: linting terminates without crashing
 			mm(failure, map[string]any{"detail": detail, "expected": "terminates"})
 			failures++
+			if failure == "hang" {
+				failures++ // a hang costs over a minute: fewer witnesses are enough
+			}
 		case r.Err != "":
 			return fmt.Errorf("child: %s", r.Err)
 		default:
